@@ -53,6 +53,7 @@ def callee_arith(cx):
 # ---------------------------------------------------------------- to_arithm
 @contract('program/condition/and_cond.py', 'And.to_arithm', ['C03', 'C09', 'C17'])
 def and_to_arithm(cx):
+    cx.replay = dict(kind='and_to_arithm')
     self, me, c1, c2 = binary_self(cx, 'And')
     cx.param(self=self, p=cx.ref('program'))
     callee_arith(cx)
@@ -61,6 +62,7 @@ def and_to_arithm(cx):
 
 @contract('program/condition/or_cond.py', 'Or.to_arithm', ['C03', 'C09', 'C17'])
 def or_to_arithm(cx):
+    cx.replay = dict(kind='or_to_arithm')
     self, me, c1, c2 = binary_self(cx, 'Or')
     cx.param(self=self, p=cx.ref('program'))
     callee_arith(cx)
@@ -69,6 +71,7 @@ def or_to_arithm(cx):
 
 @contract('program/condition/not_cond.py', 'Not.to_arithm', ['C03', 'C09', 'C17'])
 def not_to_arithm(cx):
+    cx.replay = dict(kind='not_to_arithm')
     c = cx.ref('cond', 'Condition')
     self = cx.obj('Not', cond=c)
     cx.param(self=self, p=cx.ref('program'))
@@ -169,6 +172,7 @@ def callee_eval(cx):
 
 @contract('program/condition/and_cond.py', 'And.evaluate', ['C12'])
 def and_evaluate(cx):
+    cx.replay = dict(kind='and_evaluate')
     self, me, c1, c2 = binary_self(cx, 'And')
     cx.param(self=self, state=cx.ref('state')); callee_eval(cx)
     cx.ensures(lambda st, r: truthy(r) == z3.And(holds(c1.t), holds(c2.t)))
@@ -176,6 +180,7 @@ def and_evaluate(cx):
 
 @contract('program/condition/or_cond.py', 'Or.evaluate', ['C12'])
 def or_evaluate(cx):
+    cx.replay = dict(kind='or_evaluate')
     self, me, c1, c2 = binary_self(cx, 'Or')
     cx.param(self=self, state=cx.ref('state')); callee_eval(cx)
     cx.ensures(lambda st, r: truthy(r) == z3.Or(holds(c1.t), holds(c2.t)))
@@ -234,6 +239,7 @@ def callee_implied(cx):
 
 @contract('program/condition/and_cond.py', 'And.is_implied_by_loop_guard', ['C05'])
 def and_implied(cx):
+    cx.replay = dict(kind='and_implied')
     self, me, c1, c2 = binary_self(cx, 'And')
     cx.param(self=self); callee_implied(cx)
     cx.axiom(holds(me.t) == z3.And(holds(c1.t), holds(c2.t)), z3.Implies(marked(me.t), z3.Implies(G, holds(me.t))))
